@@ -85,7 +85,7 @@ CRASH_PROFILES = {
                 n=(6, 20), geoms=((64, 96), (64, 96, 128)), per_run=((300, 40), (1000, 100, 40)),
                 expand_next=(4, (5, 1)), depth=(2, 3), bin_jobs=(2, 6)),
     "C04": dict(consts=dict(MaxIdx=6, Starts={1}, MaxBatch=2, Sizes={1}, MaxOps=5, Keys={1}, Vals={0, 2},
-                            WithBad=False, WithReopen=False, WithStable=False, MinOps=5),
+                            WithBad=False, WithReopen=False, WithStable=False, MinOps=5, WithHuge=True),
                 n=(8, 20), geoms=((64, 96), (64, 96, 160)), per_run=((300, 40), (1000, 100, 40)),
                 expand_next=(4, (5, 1)), depth=(2, 3), bin_jobs=(2, 6), need_delete=True),
 }
